@@ -34,6 +34,7 @@ type c14Case struct {
 	Steps    []string // regeneration reasons
 	CfgAlg   string   // keyAlgorithm written in the target's config at the start
 	BigExt   int      `json:",omitempty"` // size of a raw extension that makes the artifact large (0 = none)
+	Profile  int      `json:",omitempty"` // the target references a profile that contributes: 1 a validity, 2 an extension, 3 both (0 = no profile)
 }
 
 func c14World(c c14Case) World {
@@ -70,6 +71,18 @@ func c14World(c c14Case) World {
 	t.KeyAlg = c.CfgAlg
 	if c.BigExt > 0 {
 		t.Extensions = append(t.Extensions, core.Extension{Kind: core.KCUSTOM, OID: "1.2.3.4.5", Raw: core.Bin(bytes.Repeat([]byte{0xab}, c.BigExt))})
+	}
+	if c.Profile != 0 {
+		// what the entity is built from is then more than its own file says (the merged configuration differs from the written one)
+		p := core.Profile{File: "profiles/c14.yaml", Name: "c14 profile"}
+		if c.Profile&1 != 0 {
+			p.Validity = &core.Validity{Duration: "3y"}
+		}
+		if c.Profile&2 != 0 {
+			p.Extensions = []core.Extension{{Kind: core.KKU, HasContent: true, KU: []string{"digitalSignature", "keyCertSign"}}}
+		}
+		w.Profs = []core.Profile{p}
+		t.Profile = p.Name
 	}
 	var buf []byte
 	buf = append(buf, c.Lead...)
@@ -250,10 +263,10 @@ var c14Steps = []string{"edit-subject", "edit-keyalg", "all", "touch-outdated", 
 func TestC14(t *testing.T) {
 	r := core.Start(t, "C14")
 	defer r.Finish()
-	r.Rule = "three-tier hierarchy ca -> mid -> leaf; the target (any tier) pre-holds a PKCS#8 key written in gopki's shape, crypto/x509's shape or another legal shape from the harness builder (curve OID inside / outside / both, public key omitted, minimal or zero-padded scalar) for all ten curves and pooled RSA 1024/2048 (4096 in thorough), optionally with an old certificate beside it, with text before the first / after the last PEM block and with the hash line of an earlier run in front of, between or behind the blocks; RSA keys also in the flavour without NULL parameters (refusing that one is accepted, replacing it is not); paths with dots in directory names and file stems; or (leaf only) a certificate request and no key. Then 1-4 regenerations by different reasons: subject edit, keyAlgorithm edit, generate-all, touched config with -o, certificate block removed, issuer edited. Oracle after every run: same key (curve,d)/(n,e,d) in the file, certificate SPKI == that key's public key recomputed by the harness, chain checks of C01 over all three tiers; request case: request block byte-identical, SPKI == request's, no PRIVATE KEY block. Non-trivial = >= 2 regenerations of a non-P-256 key, or a foreign encoding / surrounding text, or the request case; distinct by the full case."
+	r.Rule = "three-tier hierarchy ca -> mid -> leaf; the target (any tier) pre-holds a PKCS#8 key written in gopki's shape, crypto/x509's shape or another legal shape from the harness builder (curve OID inside / outside / both, public key omitted, minimal or zero-padded scalar) for all ten curves and pooled RSA 1024/2048 (4096 in thorough), optionally with an old certificate beside it, with text before the first / after the last PEM block and with the hash line of an earlier run in front of, between or behind the blocks; RSA keys also in the flavour without NULL parameters (refusing that one is accepted, replacing it is not); paths with dots in directory names and file stems; the target optionally under a profile that contributes a validity and / or an extension; or (leaf only) a certificate request and no key. Then 1-4 regenerations by different reasons: subject edit, keyAlgorithm edit, generate-all, touched config with -o, certificate block removed, issuer edited. Oracle after every run: same key (curve,d)/(n,e,d) in the file, certificate SPKI == that key's public key recomputed by the harness, chain checks of C01 over all three tiers; request case: request block byte-identical, SPKI == request's, no PRIVATE KEY block. Non-trivial = >= 2 regenerations of a non-P-256 key, or a foreign encoding / surrounding text, or the request case; distinct by the full case."
 	r.Assumptions = []string{"a key on a curve gopki does not support is outside the property and not generated"}
 	wrap := func(c c14Case) *core.Failure {
-		nt := len(c.Steps) >= 2 && c.KeyAlg != "P-256" || c.Lead != "" || c.Trail != "" || c.CSRDER != nil || c.HashPos > 1 || c.Layout != 0 || c.NoNull || c.SideKey
+		nt := len(c.Steps) >= 2 && c.KeyAlg != "P-256" || c.Profile != 0 || c.Lead != "" || c.Trail != "" || c.CSRDER != nil || c.HashPos > 1 || c.Layout != 0 || c.NoNull || c.SideKey
 		if c.CSRDER != nil && c.KeyDER != nil {
 			r.Classes["key-plus-stale-request"]++
 		}
@@ -364,6 +377,7 @@ func TestC14(t *testing.T) {
 		if rapid.IntRange(0, 5).Draw(t, "bigext") == 0 {
 			c.BigExt = rapid.SampledFrom([]int{3000, 6200, 9000, 20000, 70000}).Draw(t, "bigextlen") // artifact files of 4-100 KiB
 		}
+		c.Profile = rapid.SampledFrom([]int{0, 0, 0, 1, 2, 3}).Draw(t, "profile")
 		n := rapid.IntRange(1, 4).Draw(t, "nsteps")
 		for i := 0; i < n; i++ {
 			c.Steps = append(c.Steps, rapid.SampledFrom(c14Steps).Draw(t, fmt.Sprintf("step%d", i)))
